@@ -327,6 +327,11 @@ func (s *session) continueUntilWait(sprint *sprint, currentRun flows.Run, node f
 	for {
 		// start by picking a destination node...
 
+		// a run which has since failed (in a later action of the node which pushed the flow) enters nothing
+		if s.pushedFlow != nil && currentRun != nil && currentRun.Status() == flows.RunStatusFailed {
+			s.pushedFlow = nil
+		}
+
 		// if a new flow has been pushed, find a destination there
 		if s.pushedFlow != nil {
 			// if this is terminal, then we need to mark all other runs as completed so we don't try to resume them
